@@ -2,7 +2,8 @@
 # tools/seed_keep.py <ID> <n> <needs> <caught_by> [<history>]: archive a confirmed seeded change under /verif/seeded/<ID>-<n>/
 import sys,os,shutil,json,re
 ID,n,needs,caught=sys.argv[1:5]; hist=sys.argv[5] if len(sys.argv)>5 else ""
-src=f'/tmp/seed/{ID}'; dst=f'/verif/seeded/{ID}-{n}'
+import os as _os
+src=_os.environ.get('SEEDDIR','/tmp/seed')+f'/{ID}'; off=int(_os.environ.get('SEEDOFFSET','0')); dst=f'/verif/seeded/{ID}-{int(n)+off}'
 os.makedirs(dst,exist_ok=True)
 shutil.copy(f'{src}/change{n}.diff',f'{dst}/patch.diff')
 shutil.copy(f'{src}/demo{n}_test.go',f'{dst}/demo_test.go')
@@ -10,7 +11,7 @@ if os.path.exists(f'{src}/NOTES.md'): shutil.copy(f'{src}/NOTES.md',f'{dst}/NOTE
 d=open(f'{dst}/demo_test.go').read()
 m=re.search(r'[Pp]ackage dir(?:ectory)?:?\s*(\S+)',d)
 tests=re.findall(r'^func (Test\w+)',d,re.M)
-meta={"property":ID,"change":int(n),"origin":"independent sub-agent given only the property text and a scratch worktree",
+meta={"property":ID,"change":int(n)+off,"origin":"independent sub-agent given only the property text and a scratch worktree",
  "needs_to_manifest":needs,
  "demonstration":{"file":"demo_test.go","package_dir":m.group(1) if m else "","tests":tests,"run":f"copy to <worktree>/{m.group(1) if m else ''}/zz_seed_test.go; go test -vet=off -count=1 -run '^({'|'.join(tests)})$' ./{m.group(1) if m else ''}/"},
  "confirmed_by_me":"tools/seed_confirm.sh in the scratch worktree: demo passes without the change, fails with it; go build ./... ok; tools/baseline.sh: all 428 pinned tests pass with the change",
